@@ -93,7 +93,21 @@ func VerifC18_Overlay() {
 		ref.layers = append(ref.layers, l)
 		anyLayer = true
 	}
-	o := NewOverlayFS(real[0], real[1:]...)
+	var o *OverlayFS
+	if zzBool("sharedLowerSlice") {
+		// the lower layers are passed as a spread slice with spare capacity
+		// that the caller goes on using for a second overlay
+		lowers := make([]fs.FS, 0, 8)
+		lowers = append(lowers, real[1:]...)
+		o = NewOverlayFS(real[0], lowers...)
+		other := NewOverlayFS(newZZFS(map[string]string{"f": "OTHER", "zz/q": "OTHER"}), lowers...)
+		_, _ = other.ReadDir(".")
+		for i := range lowers {
+			zzAssert(lowers[i] == real[1+i], "C18.ctor.callers-slice-modified")
+		}
+	} else {
+		o = NewOverlayFS(real[0], real[1:]...)
+	}
 
 	// Open / ReadFile / Stat for every path of the universe and some directories
 	queries := append([]string{}, zzC18Paths[:np]...)
